@@ -195,8 +195,14 @@ def _run_setup(ctx: Ctx, c: Collector) -> None:
     world = T.var(param_by_annotation(fi, "World", 0))
     rtf = T.var("rt_factor")
     pr = []
+    # conditions that only exist because another argument is validated up front (`if <bad>: raise`) hold on the
+    # whole normal path and are not conditions of what follows
+    pre = {T.negate(T.guard_term(r.guards[0])) for r in s.of_kind("raise") if len(r.guards) == 1 and not r.iters}
+
+    def own(gs):
+        return tuple(g for g in gs if T.guard_term(g) not in pre)
     st_u = [e for e in s.of_kind("store") if e.term[1] == ("attr", world, "until")]
-    if not st_u or st_u[0].term[2] != T.var("until") or st_u[0].guards:
+    if not st_u or st_u[0].term[2] != T.var("until") or own(st_u[0].guards):
         pr.append("world.until is not set from the until argument")
     st_r = [e for e in s.of_kind("store") if e.term[1] == ("attr", world, "rt_factor")]
     scaled = ("op", "*", rtf, ("attr", world, "time_resolution"))
@@ -219,8 +225,10 @@ def _run_setup(ctx: Ctx, c: Collector) -> None:
     try:
         bad = True
         for e in rj:
+            if not T.contains((e.guards,), rtf):
+                continue          # the validation of another argument
             ok_rows = True
-            for a, fired in tables.rows([("r", e.guards)], [("cmp", "is", rtf, T.NONE), ("cmp", "<", T.const(0), rtf)]):
+            for a, fired in tables.rows([("r", own(e.guards) if not T.contains((own(e.guards),), rtf) else tuple(g for g in e.guards if T.contains((g,), rtf)))], [("cmp", "is", rtf, T.NONE), ("cmp", "<", T.const(0), rtf)]):
                 should = (not a[("cmp", "is", rtf, T.NONE)]) and not a[("cmp", "<", T.const(0), rtf)]
                 if should != bool(fired):
                     ok_rows = False
@@ -246,7 +254,7 @@ def _run_setup(ctx: Ctx, c: Collector) -> None:
         if len(a) < 6 or a[4:6] != (T.var("rt_strict"), T.var("lazy_stepping")):
             pr.append("rt_strict / lazy_stepping are not passed through to sim_process")
     sd = [e for e in s.of_kind("call") if e.term[1][0] == "attr" and e.term[1][2] == "setup_done"]
-    if not sd or len(sd[0].iters) != 1 or sd[0].guards != (procs[0].guards if procs else ()):
+    if not sd or len(sd[0].iters) != 1 or own(sd[0].guards) != (own(procs[0].guards) if procs else ()):
         pr.append("setup_done is not sent to every simulator")
     elif procs and sd[0].idx > procs[0].idx:
         pr.append("simulator processes are started before setup_done")
